@@ -770,6 +770,12 @@ func c07R4(c *Ctx, p *Prog) {
 				hasRange = true
 			}
 		})
+		// or a rune predicate (handed to strings.IndexFunc) that decides where a bare word ends
+		if sig := fn.Signature; sig.Params().Len() == 1 && sig.Results().Len() == 1 && isBoolT(sig.Results().At(0).Type()) {
+			if b, ok := sig.Params().At(0).Type().Underlying().(*types.Basic); ok && b.Kind() == types.Int32 {
+				hasRange = true
+			}
+		}
 		if !hasRange || !calls[isOp.Object().(*types.Func).FullName()] {
 			continue
 		}
@@ -875,6 +881,36 @@ func c07R7(c *Ctx, p *Prog) {
 	n := 0
 	allow := map[string]string{
 		"(*benchproc/internal/parse.tokenizer).regexp": "only decides whether 'regexp must be followed by space or an operator' is raised; the following text is re-tokenised with proper decoding",
+	}
+	// the allowance extends to helpers that only the allow-listed function calls (the test moved into a helper)
+	callers := map[*ssa.Function]map[string]bool{}
+	for _, fn := range p.Funcs("benchproc/internal/parse") {
+		eachInstr(fn, func(_ *ssa.BasicBlock, in ssa.Instruction) {
+			if call, ok := in.(*ssa.Call); ok {
+				if sc := call.Call.StaticCallee(); sc != nil {
+					if callers[sc] == nil {
+						callers[sc] = map[string]bool{}
+					}
+					callers[sc][fnName(fn)] = true
+				}
+			}
+		})
+	}
+	for _, fn := range p.Funcs("benchproc/internal/parse") {
+		if cs := callers[fn]; len(cs) > 0 && fn.Parent() == nil {
+			all := true
+			why := ""
+			for cn := range cs {
+				if w, ok := allow[cn]; ok {
+					why = w
+				} else {
+					all = false
+				}
+			}
+			if all {
+				allow[fnName(fn)] = why + " (helper called only from the allow-listed function)"
+			}
+		}
 	}
 	for _, fn := range p.Funcs("benchproc/internal/parse") {
 		i := 0
